@@ -28,6 +28,8 @@ partial def toEvents : List Line → List (Option Ev × String) → List (Option
     match l.site with
     | "sl.lock" | "ag.yield" | "event.wait" | "event.set" | "event.inlock" | "once.cas" | "once.reset" | "once.done"
     | "once.fail" | "once.body.end" => toEvents rest acc
+    -- agent=task runs (follow-up C09p), see LatchDrv: statistics line / fall-back marker
+    | "tk.stat" | "tk.fallback" => toEvents rest acc
     | "inv.ewait" => push (.inv t .wait)
     | "inv.eset" => push (.inv t .set)
     | "inv.ereset" => push (.inv t .reset)
@@ -99,6 +101,9 @@ def monStep (m : Mon) (l : Line) : Mon :=
     if m.curOp t == "inv.ereset" then { m with resets := m.resets + 1 } else m
   | "ag.suspend" => { m with parked := upd m.parked t true }
   | "ag.woke" => { m with parked := upd m.parked t false }
+  | "tk.spurious" => { m with viol := s!"task {t}: the suspension of the pika task ended although no resume had been issued (spurious wake-up of the task agent)" :: m.viol }
+  | "tk.diff" => { m with viol := s!"the log of the run on pika tasks differs from the log of the run of the same case on OS threads (first difference at line {l.a}): the behaviour depends on the kind of agent" :: m.viol }
+  | "tk.lost" => { m with viol := s!"task {t}: resumed {l.a} time(s) through pika's task agent but the task stays suspended and nothing in the runtime can wake it (lost wake-up of the task agent)" :: m.viol }
   | "once.body" =>
     let v1 := if m.inBody > 0 then [s!"thread {t} entered the call_once callable while another thread is inside it"] else []
     let v2 := if m.okDone > 0 then [s!"thread {t} entered the call_once callable after it had already completed"] else []
